@@ -56,8 +56,8 @@ class Func:
 
     @property
     def params(self):
-        """parameters without self"""
-        return self.posparams[1:] if self.is_method else list(self.posparams)
+        """parameters without self (keyword-only ones included)"""
+        return (self.posparams[1:] if self.is_method else list(self.posparams)) + list(self.kwonly)
 
     def __repr__(self):
         return "<Func %s>" % self.qname
@@ -162,7 +162,11 @@ class Module:
                 own = owner
                 if isinstance(n, ast.FunctionDef) and owner is not None and owner.endswith("." + n.name):
                     own = owner
-                self.forbidden_in.append((n.lineno, "decorator @%s on %s" % (dn, n.name), own if isinstance(n, ast.FunctionDef) else None))
+                if isinstance(n, ast.FunctionDef):
+                    self.forbidden_in.append((n.lineno, "decorator @%s on %s" % (dn, n.name), own))
+                else:
+                    # a class decorator can replace __init__ / wrap methods: it matters to every check that analyses a method of the class
+                    self.forbidden_in.append((n.lineno, "class decorator @%s on %s" % (dn, n.name), "%s.%s.*" % (self.name, n.name)))
 
     def _scan_stmt(self, n):
         if isinstance(n, ast.Import):
@@ -220,6 +224,41 @@ class Program:
             for c in m.classes.values():
                 for f in c["methods"].values():
                     self.funcs[f.qname] = f
+        self.rebinds = self._scan_rebinds()
+
+    def _scan_rebinds(self):
+        """Assignments that change what a *name* of the repository refers to, after its definition: `Class.method = g`,
+        `module.func = g` (monkeypatching), `f = wrap(f)` at module level for a function f defined in that module, a name that
+        is both imported and defined.  The analyses resolve names to definitions, so a check that analyses an affected
+        function cannot be trusted: -> [(relpath, lineno, what, affected qualified-name prefix)]"""
+        out = []
+        for m in self.modules.values():
+            defined = set(m.funcs) | set(m.classes)
+            for n in m.tree.body:
+                tgts = n.targets if isinstance(n, ast.Assign) else [n.target] if isinstance(n, (ast.AugAssign, ast.AnnAssign)) else []
+                for t in tgts:
+                    if isinstance(t, ast.Name) and t.id in defined:
+                        out.append((m.relpath, n.lineno, "module-level rebinding of %s" % t.id, "%s.%s" % (m.name, t.id)))
+            for nm in defined & set(m.imports):
+                out.append((m.relpath, 0, "%s is both imported and defined in %s" % (nm, m.name), "%s.%s" % (m.name, nm)))
+            for n in ast.walk(m.tree):
+                tgts = n.targets if isinstance(n, ast.Assign) else [n.target] if isinstance(n, (ast.AugAssign, ast.AnnAssign)) else []
+                for t in tgts:
+                    if not isinstance(t, ast.Attribute):
+                        continue
+                    d = dotted_of(t.value)
+                    if d is None or d.split(".")[0] in ("self", "cls"):
+                        continue
+                    head, _, rest = d.partition(".")
+                    base = self.resolve_global(head, m)
+                    if base is None:
+                        continue
+                    k = self.lookup(base + ("." + rest if rest else ""))
+                    if k[0] == "class":
+                        out.append((m.relpath, n.lineno, "assignment to %s.%s" % (d, t.attr), "%s.%s.%s" % (k[1].name, k[2], t.attr)))
+                    elif k[0] == "module":
+                        out.append((m.relpath, n.lineno, "assignment to %s.%s" % (d, t.attr), "%s.%s" % (k[1].name, t.attr)))
+        return out
 
     # ------------------------------------------------------------------ lookup
     def func(self, qname):
